@@ -260,6 +260,12 @@ impl Gen {
       c.pre.push(format!("alloc_bytes 90 {n}"));
       c.pre.push("detach 90".to_string());
       c.pre.push(format!("rewind cur -{back}"));
+    } else if self.rng.chance(10) {
+      // ... or the arena was used and cleared before the threads start
+      let n = self.rng.range(1, 64);
+      c.pre.push(format!("alloc_bytes 91 {n}"));
+      c.pre.push("detach 91".to_string());
+      c.pre.push("clear".to_string());
     }
     for _ in 0..self.rng.range(0, 2) {
       let n = self.rng.range(1, 40);
@@ -275,6 +281,19 @@ impl Gen {
       let mut own: Vec<u32> = Vec::new();
       let mut id = 100 * tid as u32;
       for _ in 0..self.rng.range(1, 4) {
+        if self.rng.chance(10) {
+          // a value with drop glue, borrowed or owned, often released at once (the handle's own Drop arm; the cursor is
+          // usually not aligned for it, so the extent starts with padding)
+          let owned = if self.rng.chance(50) { "_owned" } else { "" };
+          ops.push(format!("alloc_d{owned} {id}"));
+          if self.rng.chance(60) {
+            ops.push(format!("drop {id}"));
+          } else {
+            own.push(id);
+          }
+          id += 1;
+          continue;
+        }
         let line = match self.rng.weighted(&[50, 25, 25]) {
           0 => {
             let n = if self.rng.chance(6) { 0 } else { self.rng.range(1, 64) };
